@@ -865,14 +865,16 @@ PROPS["C13"] = dict(
                  ("Tmcg.C13.recv_fragmentation_invariant_delivery", "full"),
                  ("Tmcg.C13.send_fits_buffer", "full"), ("Tmcg.C13.first_newline_is_delimiter", "full"),
                  ("Tmcg.C13.bad_tag_never_delivered", "full"), ("Tmcg.C13.auth_delivers_only_tagged", "full")]
-                + [("Tmcg.C13." + n, "full") for n in ['nb_send_all_or_nothing', 'nb_send_refused', 'nb_send_timeout', 'closed_link_silent', 'closed_link_silent_select', 'nb_send_mid_message_closes', 'nb_accepted_prefix', 'nb_recv_fragmentation_invariant', 'chunked_roundtrip', 'chunked_any_state', 'chunked_integrity', 'peers_not_mixed', 'link_prefix', 'link_complete', 'link_prefix_truncated', 'frame2_length_le']],
+                + [("Tmcg.C13." + n, "full") for n in ['nb_send_all_or_nothing', 'nb_send_refused', 'nb_send_timeout', 'closed_link_silent', 'closed_link_silent_select', 'nb_send_mid_message_closes', 'nb_accepted_prefix', 'nb_recv_fragmentation_invariant', 'chunked_roundtrip', 'chunked_any_state', 'chunked_integrity', 'peers_not_mixed', 'link_prefix', 'link_complete', 'link_prefix_truncated', 'frame2_length_le']]
+                + [("Tmcg.C13." + n, "full") for n in ['array_roundtrip', 'arrays_peers_not_mixed', 'fit_uniform', 'array_prefix_under_tamper', 'arrCheck_AI', 'sendArrGo_select', 'sendArrSeq_spec', 'arrays_prefix_general', 'arrays_accepted_prefix']],
     predicate=pred_c13_all, final=c13_final,
     level_text="Lean 4 theorems about the executable model of the channel's sender and receiver (stream modes): for every message list, every fragmentation of the byte stream and every interleaving of arrivals and Receive calls the delivered sequence is a prefix of the sent one with no failing call, "
                "and it is complete after finitely many calls; accepted messages always fit the reassembly buffer; a bad tag is never delivered and stops the link; a delivered message carried a tag valid for the current sequence number (forgery reduction). "
                "Correspondence: the real select-based objects on harness-owned pipes, every Send and every Receive(timeout 0) call recorded with the state before/after and the MAC/cipher oracle answers (interposed libgcrypt), fragmentation schedules and wire tampering; "
                "Second part (area aio2): one receiver model for all 16 class x mode combinations (plain, CFB, chunked CTR line codecs) with fragmentation invariance in every mode; the non-blocking sender on a byte queue of any capacity with any drain schedule and a clock (EAGAIN, sleep, time-out in the IV, line or tag stage): a true-returning Send has put exactly the complete framing on the link, a false-returning one a strict prefix and then closes the link (repair of F41), hence for ANY sequence of Sends the delivered sequence is a prefix of the accepted values; several peers behind one object under the three schedulers are never mixed. Real objects: write(2) interposed for registered descriptors (simulated queue), time-outs forced, wire tampering catalogue, reflection and two-direction probes.",
     level_note=LEVEL_NOTE + " MAC unforgeability and cipher secrecy are assumed; real select() timing is not modelled (the harness forces select time-outs to zero); a full pipe (EAGAIN) of the non-blocking class is exercised by a back-pressure scenario in which the sender's sleep() is turned into receiver progress.",
-    assumptions=["HMAC unforgeability, AES-CFB/CTR secrecy", "integer arrays (vector Send/Receive) are judged by the predicate on the real objects only; EOF on read and multi-peer liveness are not modelled",
+    assumptions=["HMAC unforgeability, AES-CFB/CTR secrecy", "integer arrays: safety (prefix statements) proved, liveness observed on the real objects only; arrays_accepted_prefix for the select class; only time-out 0 of the vector Receive is modelled; EOF on read and multi-peer liveness are not modelled",
+                 "known finding F50: mixing the single-value and the vector Receive on one link delivers out of sending order",
                  "known finding F13: the IV of an encrypted link is not covered by the MAC",
                  "known finding F42: no direction separation under the MAC (a reflected own message is delivered)",
                  "known finding F43: chunked+encrypted select links reuse the CTR keystream in the two directions"],
